@@ -328,8 +328,8 @@ ctr_seq!(t_seq_ctr128be_b16_w2_far, 100, Ctr128BE, spec::CTR128BE, U16, 16, U2, 
 belt_seq!(t_seq_belt_w2_far, 100, U2, 0x0fff_ffff_ffff_fffe, 4, 0xffff_ffff_ffff_ffe5, 20, 0xffff_ffff_ffff_fff1, 3, 0x1_0000_0000_0000_0011);
 ctr_seek_all!(t_seekall_ctr32le_b4_w2_q9_p13, 64, Ctr32LE, spec::CTR32LE, U4, 4, U2, 9, 13);
 ctr_seek_all!(t_seekall_ctr64be_b8_w1_q3_p17, 64, Ctr64BE, spec::CTR64BE, U8, 8, U1, 3, 17);
-ctr_seek_all!(t_seekall_ctr128be_b16_w1_q20_p33, 100, Ctr128BE, spec::CTR128BE, U16, 16, U1, 20, 33);
-ctr_seek_all!(t_seekall_ctr128le_b16_w2_q1_p33, 100, Ctr128LE, spec::CTR128LE, U16, 16, U2, 1, 33);
+ctr_seek_all!(t_seekall_ctr128be_b16_w1_q5_p17, 100, Ctr128BE, spec::CTR128BE, U16, 16, U1, 5, 17);
+ctr_seek_all!(t_seekall_ctr128le_b16_w2_q17_p18, 100, Ctr128LE, spec::CTR128LE, U16, 16, U2, 17, 18);
 ctr_anypos!(t_any_ctr32le_b4_w2_o5_n4, 64, Ctr32LE, spec::CTR32LE, u32, U4, 4, U2, 5, 4, 0x4000_0000u32);
 ctr_anypos!(t_any_ctr32be_b16_w1_o15_n2, 100, Ctr32BE, spec::CTR32BE, u32, U16, 16, U1, 15, 2, 0x1000_0000u32);
 ctr_anypos!(t_any_ctr64be_b8_w1_o7_n10, 64, Ctr64BE, spec::CTR64BE, u64, U8, 8, U1, 7, 10, u64::MAX / 8 + 1);
